@@ -5,6 +5,7 @@ import (
 	"bytes"
 	"encoding/xml"
 	"io"
+	"unicode/utf16"
 )
 
 // rootChild 描述XML部件根元素的一个直接子元素
@@ -140,4 +141,26 @@ func bindWordNamespace(fragment []byte, element string) []byte {
 	out = append(out, fragment[:idx+len(open)]...)
 	out = append(out, decl...)
 	return append(out, fragment[idx+len(open):]...)
+}
+
+// unmarshalXMLPart 解析一个XML部件。OPC 允许部件使用 UTF-8 或 UTF-16 编码：以 UTF-16 字节序标记开头的部件
+// 先转成 UTF-8 再解析（encoding/xml 只认识 UTF-8，之前这类部件解析失败后被当作不存在，
+// 内容类型和关系全部丢失）。部件原文不变，这里只影响解析。
+func unmarshalXMLPart(data []byte, v interface{}) error {
+	if len(data) < 2 || !((data[0] == 0xff && data[1] == 0xfe) || (data[0] == 0xfe && data[1] == 0xff)) {
+		return xml.Unmarshal(data, v)
+	}
+	littleEndian := data[0] == 0xff
+	units := make([]uint16, 0, len(data)/2)
+	for i := 2; i+1 < len(data); i += 2 {
+		if littleEndian {
+			units = append(units, uint16(data[i])|uint16(data[i+1])<<8)
+		} else {
+			units = append(units, uint16(data[i])<<8|uint16(data[i+1]))
+		}
+	}
+	decoder := xml.NewDecoder(bytes.NewReader([]byte(string(utf16.Decode(units)))))
+	// 内容已经是 UTF-8，XML声明里写的 encoding="UTF-16" 不再需要转换
+	decoder.CharsetReader = func(label string, input io.Reader) (io.Reader, error) { return input, nil }
+	return decoder.Decode(v)
 }
